@@ -35,8 +35,7 @@ MANIFEST = {
             "SymbolTable.merge before declaring. True for every symbol "
             "table, which tests only sample.",
     "note": "Not decided: that every referenced name is in some table, "
-            "array-bound dependencies between constants, symbols added by "
-            "transformations, and anything that needs a Fortran compiler.",
+            "symbols added by transformations, and anything that needs a Fortran compiler.",
     "technique": "algorithm-template matching + worklist partition rule + "
                  "CFG dominance",
 }
@@ -114,6 +113,7 @@ def check_params(idx, run):
             "for lit in symbol.initial_value.walk(Literal)",
         "declared precision":
             "isinstance(symbol.datatype.precision, DataSymbol)",
+        "array bounds": "symbol.datatype.shape",
     }
     for what, frag in sources.items():
         run.check("C04.R1", frag in txt, cons, f"dependencies from {what}",
@@ -177,10 +177,23 @@ def check_partition(idx, run):
                       f"would be declared a second time by a later loop",
                       loc(mod, loop))
     # constants are removed right after _gen_parameter_decls
-    run.check("C04.R2", "declarations += self._gen_parameter_decls("
-              "symbol_table, is_module_scope) for sym in all_symbols[:]: "
-              "if isinstance(sym, DataSymbol) and sym.is_constant: "
-              "all_symbols.remove(sym)" in txt, cons,
+    pidx = [k for k, st in enumerate(top)
+            if "self._gen_parameter_decls(" in ast.unparse(st) and
+            isinstance(st, ast.AugAssign) and
+            ast.unparse(st.target) == "declarations"]
+    const_removed = False
+    if pidx:
+        for st in top[pidx[0] + 1:]:
+            if isinstance(st, ast.For) and ast.unparse(st.iter) in (
+                    "all_symbols[:]", "list(all_symbols)"):
+                for sub in ast.walk(st):
+                    if isinstance(sub, ast.If) and "is_constant" in \
+                            ast.unparse(sub.test) and "DataSymbol" in \
+                            ast.unparse(sub.test) and any(
+                                "all_symbols.remove(" in ast.unparse(b)
+                                for b in sub.body):
+                        const_removed = True
+    run.check("C04.R2", bool(pidx) and const_removed, cons,
               "constants declared once",
               "constants written by _gen_parameter_decls are not removed "
               "from the worklist (declared twice) or are no longer written "
@@ -227,9 +240,12 @@ def check_partition(idx, run):
               f"symbols are dropped from the declaration worklist under "
               f"{extra}: they would not be declared at all", loc(mod, func))
     # unresolved symbols need a wildcard import
-    run.check("C04.R2", "if unresolved_symbols and (not (symbol_table."
-              "wildcard_imports() or internal_interface_symbol)): "
-              in txt and "raise VisitorError" in txt, cons,
+    guard = [st for st in ast.walk(func) if isinstance(st, ast.If) and
+             "unresolved_symbols" in ast.unparse(st.test) and
+             "wildcard_imports()" in ast.unparse(st.test) and
+             any(isinstance(b, ast.Raise) and "VisitorError" in
+                 ast.unparse(b) for b in st.body)]
+    run.check("C04.R2", bool(guard), cons,
               "unresolved symbols need a wildcard import",
               "unresolved symbols no longer stop the writer when no "
               "wildcard import could provide them", loc(mod, func))
@@ -266,6 +282,14 @@ def check_scope_merge(idx, run):
             cons, "every schedule in the routine is merged",
             "the merge no longer runs over node.walk(Schedule)",
             loc(mod, func))
+        from sa.obligations import iteration_skips
+        bad = iteration_skips(func, "whole_routine_scope.merge(", [])
+        run.check("C04.R3", not bad, cons,
+                  "no schedule is skipped by the merge",
+                  f"an iteration of the merge loop can finish without "
+                  f"merging the schedule's table (tests on that path: "
+                  f"{bad[:1]}): symbols of that inner scope would not be "
+                  f"declared", loc(mod, func))
         dom = cfg.dominators().get(decls[0].id, set())
         lowering = [n for n in cfg.stmt_nodes() if n.kind == "test" and
                     "_DISABLE_LOWERING" in ast.unparse(n.ast.test)]
